@@ -95,7 +95,18 @@ type Lemma struct {
 	Line  int
 }
 
+// Predicate: `predicate name(p1, p2): expr` - a named Boolean (or value) abbreviation usable in
+// every contract expression of the package; expanded by evaluation with the parameters bound.
+type Predicate struct {
+	Name   string
+	Params []string
+	Body   string
+	File   string
+	Line   int
+}
+
 type ContractSet struct {
+	Preds  map[string]*Predicate
 	Funcs  map[string]*FuncContract // key: pkgpath + "::" + Key
 	Lemmas []*Lemma
 	Files  []string
@@ -112,7 +123,7 @@ func parseRecv(r string) string {
 }
 
 func loadContracts(root string, pkgPathOf func(dir string) string) (*ContractSet, error) {
-	cs := &ContractSet{Funcs: map[string]*FuncContract{}}
+	cs := &ContractSet{Funcs: map[string]*FuncContract{}, Preds: map[string]*Predicate{}}
 	var files []string
 	filepath.Walk(root, func(p string, info os.FileInfo, err error) error {
 		if err != nil {
@@ -184,6 +195,24 @@ func (cs *ContractSet) parseFile(path, pkgPath string) error {
 				return fmt.Errorf("%s:%d: duplicate contract for %s", path, ln, key)
 			}
 			cs.Funcs[full] = cur
+			continue
+		}
+		if strings.HasPrefix(body, "predicate ") {
+			rest := strings.TrimPrefix(body, "predicate ")
+			i := strings.Index(rest, "):")
+			j := strings.Index(rest, "(")
+			if i < 0 || j < 0 || j > i {
+				return fmt.Errorf("%s:%d: bad predicate", path, ln)
+			}
+			pr := &Predicate{Name: strings.TrimSpace(rest[:j]), Body: strings.TrimSpace(rest[i+2:]), File: path, Line: pendLine}
+			for _, a := range strings.Split(rest[j+1:i], ",") {
+				if a = strings.TrimSpace(a); a != "" {
+					pr.Params = append(pr.Params, a)
+				}
+			}
+			cs.Preds[pr.Name] = pr
+			cur = nil
+			curLemma = nil
 			continue
 		}
 		if strings.HasPrefix(body, "lemma ") {
